@@ -33,6 +33,7 @@ type Obligation struct {
 	File    string
 	replay  *ReplayCtx
 	rets    []*SVal
+	Only    []string // properties this obligation is restricted to (empty: all of the function's)
 }
 
 // Exec verifies one top-level function.
@@ -68,6 +69,8 @@ type Exec struct {
 	bindFail  map[string]bool
 	snap      map[string]*Loc // snapshot backing arrays of embedded arrays -> where they live
 	guardsSeen map[string]bool
+	resTypes   map[string]types.Type
+	onlyProps  []string
 }
 
 type Frame struct {
@@ -97,11 +100,16 @@ type Frame struct {
 	storeRoot ssa.Value
 	parent    *Frame
 	locals    []localAlloc
+	pendingCall []string
+	lastResult  map[string]*callResult
+	escaped     map[*ssa.Alloc]bool
+	curCallArgs []ssa.Value
 }
 
 type localAlloc struct {
-	ref string
-	t   types.Type
+	ref   string
+	t     types.Type
+	alloc *ssa.Alloc
 }
 
 type retInfo struct {
@@ -171,7 +179,7 @@ func (fr *Frame) havocAll(why string) {
 	fr.cur = n
 	// generator-maintained ghost flags are not program state
 	for name, t := range old.m {
-		if strings.HasPrefix(name, "$called:") {
+		if strings.HasPrefix(name, "$called:") || strings.HasPrefix(name, "$res:") {
 			n.m[name] = t
 		}
 	}
@@ -179,6 +187,9 @@ func (fr *Frame) havocAll(why string) {
 	// any callee: their cells keep their values
 	for f := fr; f != nil; f = f.parent {
 		for _, la := range f.locals {
+			if f.escaped[la.alloc] {
+				continue
+			}
 			loc := &Loc{Kind: LRef, Base: la.ref, Root: la.t, T: la.t}
 			func() {
 				defer func() {
@@ -408,7 +419,7 @@ func (fr *Frame) oblige(kind, detail, cond string, clause string) {
 		}
 		return
 	}
-	if c := x.w.contracts[x.fnKey]; c != nil && c.Lenient && kind != "guard" {
+	if c := x.w.contracts[x.fnKey]; c != nil && c.Lenient && kind != "guard" && !(kind == "post" && strings.HasPrefix(detail, "check:")) {
 		// lenient contracts claim their call-site guards only
 		if kind != "post" && kind != "frame" {
 			x.em.Assert(sImp(fr.curReach, cond))
@@ -433,7 +444,7 @@ func (fr *Frame) oblige(kind, detail, cond string, clause string) {
 	}
 	if !x.discover {
 		x.obls = append(x.obls, &Obligation{Name: name, Kind: kind, Fn: x.fnKey, Props: x.props, Pos: x.em.Mark(),
-			Goal: sAnd(fr.curReach, sNot(cond)), Expect: "unsat", Clause: clause, em: x.em, replay: x.replayCtx, rets: x.curRets})
+			Goal: sAnd(fr.curReach, sNot(cond)), Expect: "unsat", Clause: clause, em: x.em, replay: x.replayCtx, rets: x.curRets, Only: x.onlyProps})
 	}
 	if kind == "post" || kind == "frame" {
 		// nothing follows a return; keeping failed postconditions out of the assumptions also
